@@ -19,6 +19,7 @@ type Loaded struct {
 	ssaPkg *ssa.Package
 	funcs  map[string]*ssa.Function
 	tcache map[string]types.Type
+	allFuncs map[*ssa.Function]bool
 }
 
 const goRoot = "/opt/veriftools/go1.26.8"
@@ -47,7 +48,8 @@ func Load(dir string) (*Loaded, error) {
 	prog, spkgs := ssautil.AllPackages(pkgs, ssa.InstantiateGenerics|ssa.GlobalDebug)
 	prog.Build()
 	ld := &Loaded{fset: pkgs[0].Fset, pkg: pkgs[0], prog: prog, ssaPkg: spkgs[0], funcs: map[string]*ssa.Function{}, tcache: map[string]types.Type{}}
-	for fn := range ssautil.AllFunctions(prog) {
+	ld.allFuncs = ssautil.AllFunctions(prog)
+	for fn := range ld.allFuncs {
 		if fn.Pkg == spkgs[0] || (fn.Parent() != nil && rootParent(fn).Pkg == spkgs[0]) {
 			ld.funcs[fnKey(fn)] = fn
 		}
